@@ -248,12 +248,17 @@ class PythonASTOptimizer(ast.NodeTransformer):
         """Eliminate dead code from except try bodies."""
         new_node = self.generic_visit(node)
         assert isinstance(new_node, ast.Try)
+        finalbody = _filter_dead_code(new_node.finalbody)
+        if not finalbody and not new_node.handlers:
+            # Every statement of the `finally` clause was optimized away; a Python
+            # `try` needs at least one handler or a non-empty `finally` to compile
+            finalbody = [ast.Pass()]
         return ast.copy_location(
             ast.Try(
                 body=_filter_dead_code(new_node.body),
                 handlers=new_node.handlers,
                 orelse=_filter_dead_code(new_node.orelse),
-                finalbody=_filter_dead_code(new_node.finalbody),
+                finalbody=finalbody,
             ),
             new_node,
         )
